@@ -444,13 +444,22 @@ fn run(ctx: &mut Ctx) {
             let payload: Vec<u8> = cs.iter().flat_map(|c| c.payload().to_vec()).collect();
             let used: Vec<u8> = base.iter().filter(|x| x.0 == nm).map(|x| x.1[10]).collect();
             if let (Some(p0), Some(label)) = (crate::refs::pwb_ref(&payload), (0..4u8).find(|l| !used.contains(l))) {
-                for short in [false, true] {
+                for variant in 0..4 {
+                    let short = variant % 2 == 1;
                     let mut p = p0.clone();
                     if short {
                         p.requested_samples = 2;
                         for c in p.channels.iter_mut() {
                             c.1.truncate(2);
                         }
+                    }
+                    if variant >= 2 {
+                        // an overlapping but different channel set: a new channel in front, the duplicated ones behind it
+                        let free = (4u16..=79).find(|c| ![16, 29, 54, 67].contains(c) && !p.channels.iter().any(|x| x.0 == *c) && *c < p.channels[0].0);
+                        let Some(free) = free else { continue };
+                        let smp = p.channels[0].1.clone();
+                        p.channels.insert(0, (free, smp));
+                        p.sent_mask |= 1u128 << (free - 1);
                     }
                     for _ in 0..6 {
                         let mut b = base.clone();
